@@ -9,6 +9,7 @@ import numpy as np
 
 from .. import shapes as S
 
+from .. import scenarios as SC
 from .. import weaver_common as W
 from ..core import floats
 
@@ -49,6 +50,8 @@ def pipeline(rng):
 
 def cases(rng, tier):
     n_ = {"quick": 300, "thorough": 3000}.get(tier, 200)
+    for _ in range(30 if tier != "thorough" else 400):
+        yield SC.gen(rng, "match_reads_reference")
     for _ in range(n_):
         c = W.gen_init(rng)
         c["ops"] = [W.gen_domain_op(rng) for _ in range(rng.randint(0, 8))]
@@ -68,16 +71,22 @@ def cases(rng, tier):
 
 
 def run_impl(c):
+    if isinstance(c, dict) and "scenario" in c:
+        return SC.run(c)
     io = W.run_program(c)
     c["_lines"] = io["lines"]
     return io
 
 
 def request(c):
+    if isinstance(c, dict) and "scenario" in c:
+        return []
     return c["_lines"]
 
 
 def compare(c, io, mo):
+    if isinstance(c, dict) and "scenario" in c:
+        return None
     return W.compare_program(c, io, mo)
 
 
@@ -137,6 +146,8 @@ def same(a, b):
 
 
 def oracle(c, io):
+    if isinstance(c, dict) and "scenario" in c:
+        return io.get("finding")
     steps = io["steps"]
     if "err" in steps[0]:
         return None
@@ -210,6 +221,8 @@ def oracle(c, io):
 
 
 def tags(c, io, mo):
+    if isinstance(c, dict) and "scenario" in c:
+        return ["scenario=" + c["scenario"]]
     t = [f"len={min(len(c['ops']), 9)}"]
     for o in c["ops"]:
         t.append(f"op={o['op']}")
@@ -220,6 +233,8 @@ def tags(c, io, mo):
 
 
 def nontrivial_key(c, io, mo):
+    if isinstance(c, dict) and "scenario" in c:
+        return c
     nd = sum(1 for o in c["ops"] if o["op"] in W.DOMAIN)
     if nd >= 2 and not any("err" in s for s in io["steps"]):
         return {"x": c["x"], "y": c["y"], "ops": [{k: v for k, v in o.items() if not k.startswith("_")} for o in c["ops"]]}
